@@ -790,3 +790,16 @@ MUTANTS += [
     }''')],
      'expect': {'C11': 'TO-WRITER'}},
 ]
+
+MUTANTS += [
+    {'name': 'silent_parser_reset_reordered', 'edits': [(P, '''    memset(parser->state, 0x00U, (sizeof(binson_state)*parser->max_depth));
+    parser->error_flags = BINSON_ERROR_NONE;
+    parser->buffer_used     = 0;
+    parser->state[0].flags  = BINSON_STATE_UNDEFINED;
+    parser->current_state = &parser->state[0];''', '''    parser->current_state = &parser->state[0];
+    parser->buffer_used     = 0;
+    memset(parser->state, 0x00U, (sizeof(binson_state)*parser->max_depth));
+    parser->current_state->flags = BINSON_STATE_UNDEFINED;
+    parser->error_flags = BINSON_ERROR_NONE;''')],
+     'expect': {'C12': None, 'C01': None, 'C02': None, 'C09': None}},
+]
